@@ -1,6 +1,7 @@
 """Per-property configuration of the driver."""
 
 PROPS = {
+    "C12": dict(level="proof", num=12, rule="see harness c12.go"),
     "C04": dict(level="proof", num=4, rule="see harness c04.go"),
     "C14": dict(level="proof", num=14,
                 rule="see harness c14.go: random call programs over universes of 3/12/200 keys incl. nil/empty keys and values; raw estimate after every call; both flush variants read back",
